@@ -16,7 +16,7 @@ RULE = (
     "grids of 5..15 points per decade over 3..7 decades x smoothing {none, lowess, modsinc, savgol, whithend} x interpolation "
     "{akima, makima, cubic, pchip} x {Z, Y} x num_points/polynomial_order x window {every registered named window with drawn "
     "centre/width covering >= 3 points, custom weight arrays incl. zeros}. Oracle: constant phase -> reconstructed modulus equals "
-    "the true one (5e-4); ladders within 8 % (20 % when an arc exceeds three times the series resistance; not judged when the smoothing window exceeds about half a decade); Z -> kZ scales the reconstruction by k (1e-6 + offset-fit tolerance); changing "
+    "the true one (5e-4); ladders within 8 % and the Z and Y reconstructions within 0.1 % of each other (20 % when an arc exceeds three times the series resistance; not judged when the smoothing window exceeds about half a decade); Z -> kZ scales the reconstruction by k (1e-6 + offset-fit tolerance); changing "
     "|Z| (phase kept) at points outside the window / with zero custom weight leaves the reconstruction unchanged (1e-9), also "
     "for a second spectrum analysed in the same process on a grid with the same end points and length but different interior "
     "points; the smoothing filters return constant and linear-in-ln(omega) phase unchanged (1e-9) for every (num_points, "
@@ -149,6 +149,7 @@ def body(ctx, c):
         raise
     mod = np.abs(np.asarray(r.impedances))
     err = np.abs(mod / np.abs(Z) - 1)
+    heavy = False
     if c["kind"] == "ladder":
         ctx.observe("ladder:max-rel-err", float(err.max()))
         # the first-order Z-HIT correction degrades with the curvature of the phase: arcs much larger than the series
@@ -161,6 +162,15 @@ def body(ctx, c):
     else:
         ctx.observe("constant-phase:max-rel-err", float(err.max()))
         ctx.check(float(err.max()) <= 5e-4, "constant-phase-exact", c, f"{c['kind']}: reconstructed modulus off by {err.max():.3e} (relative) at f={f[int(err.argmax())]:.4g}")
+    # both representations reconstruct the same modulus
+    if c["kind"] == "ladder" and not heavy:
+        try:
+            ro = perform_zhit(DataSet(f, Z), **dict(common, admittance=not c["admittance"]), **kw)
+            dev = float(np.max(np.abs(np.abs(np.asarray(ro.impedances)) / mod - 1)))
+            ctx.observe("Z-vs-Y:dev", dev)
+            ctx.check(dev <= 1e-3, "representations-agree", c, f"reconstructions in the impedance and admittance representation differ by {dev * 100:.2f} %")
+        except ZHITError:
+            pass
     # scaling
     try:
         r2 = run(f, Z * c["k"], kw)
